@@ -134,5 +134,50 @@ def r06_2(ctx):
     return r
 
 
+DISPATCH = "transports::ice::shared_udp::SharedUdpPort::dispatch"
+
+
+def r06_3(ctx):
+    """on a shared (mux) UDP port a Binding request is routed by the ufrag in its USERNAME and by nothing else:
+    the by-source-address fallback exists for packets that carry no ufrag (responses, DTLS, RTP). A request that
+    names a ufrag must never reach that fallback, or it is handed to whichever session owns the source address
+    although it was not addressed to it."""
+    r = RuleResult("R06.3", "K1", "mux demultiplexer: a request naming a ufrag is routed by that ufrag only")
+    b = ctx.body(DISPATCH)
+    r.scope.append(DISPATCH)
+    calls = [(bi, t) for bi, t, p in core.calls_to(b, suffix("peer_ufrag_from_binding_request"))]
+    r.need("peer_ufrag_from_binding_request call in dispatch", len(calls), 1)
+    fallback = [bi for bi, t, p in core.calls_to(b, suffix("HashMap::<K, V, S, A>::get"))
+                if t["a"] and mir.has_field(b.term_operand(t["a"][0]), "peers")]
+    r.need("by-address fallback lookups", len(fallback), 1)
+    for cbi, ct in calls:
+        cterm = b.term_call(ct)
+
+        def only_call_or_none(x, depth=0):
+            if x == cterm:
+                return True
+            if x[0] == "agg" and x[2] == "None":
+                return True
+            if x[0] == "phi":
+                return all(only_call_or_none(y, depth + 1) for y in x[1])
+            if x[0] == "var" and depth < 3 and len(x) > 2:
+                ds = b.var_def_terms(x[2])
+                return bool(ds) and all(only_call_or_none(y, depth + 1) for y in ds)
+            return False
+
+        def none_edge(term, meaning, *_):
+            return term[0] == "discr" and meaning == "None" and only_call_or_none(term[1])
+        g = core.guard_edges(b, none_edge)
+        for fb in fallback:
+            p = b.path_to([ct["to"]], fb, cut_edges=set(g))
+            if p is None and g:
+                r.ok({"site": b.where(fb), "cut_by": "None edge of peer_ufrag_from_binding_request(packet) itself"})
+            else:
+                r.violate(DISPATCH, "fallback:peers.get", b.where(fb),
+                          "a Binding request that names a ufrag can fall through to the by-source-address lookup and be delivered "
+                          "to a session it was not addressed to", core.describe_path(b, p) if p else "")
+    return r
+
+
 def run(ctx):
-    return [r06_1(ctx), r06_2(ctx)]
+    return [r06_1(ctx), r06_2(ctx), r06_3(ctx)]
